@@ -13,7 +13,8 @@ import numpy as np
 from sim.machine import Machine, Result
 from sim.seeds import Streams, derive
 from sim import compare as C
-from machines.c01 import queries_for, invoke, qkey, cwd, run_dirs, snap
+from machines.c01 import (queries_for, invoke, qkey, cwd, run_dirs, snap,
+                          with_pos)
 
 # randomised queries: run as perpetrators only (their own value is random)
 RANDOMISED = {
@@ -155,8 +156,10 @@ class C06(Machine):
                     "config": {"lru": lru, "layer": "pair",
                                "topology": "single"},
                     "builds": [{"cls": cname, "ms": ms}],
-                    "ops": [{"obj": 0, "name": qa[0], "kw": qa[1]},
-                            {"obj": 0, "name": qb[0], "kw": qb[1]}]}
+                    "ops": [{"obj": 0, "name": qa[0],
+                             "kw": with_pos(qa[1], a)},
+                            {"obj": 0, "name": qb[0],
+                             "kw": with_pos(qb[1], a)}]}
         topo = a.choice(TOPOLOGIES)
         ms = a.randrange(10 ** 9)
         if topo == "shared_data":
@@ -186,7 +189,7 @@ class C06(Machine):
             i = o.randrange(nb)
             qs = all_queries(BY_NAME[base_cls[i]])
             qn, kw = qs[o.randrange(len(qs))]
-            ops.append({"obj": i, "name": qn, "kw": kw})
+            ops.append({"obj": i, "name": qn, "kw": with_pos(kw, o)})
         again = list(ops)
         o.shuffle(again)
         ops = ops + again
@@ -287,6 +290,8 @@ class C06(Machine):
                 picks = [sq[(step * 2 + j) % len(sq)] for j in range(2)] \
                     if rotate else sq
                 for qn, qk in picks:
+                    # call-site pattern rotates with the step
+                    qk = dict(qk, **{"@pos": (step + 1) % 3})
                     rk = (sname, qkey(qn, qk))
                     smodel = {"n": so.N if sspec.name == "GeoGrid"
                               else so.grid.N}
